@@ -1,6 +1,9 @@
 from vlib import runner, sysprops
 
-PARTIAL = ["a dispatch that completes because its read side closed may leave its last write unflushed (not 'going idle'; documented)"]
+PARTIAL = [
+    'client: six of the nine recorded violation kinds are proved unreachable (C14_no_violation_partial); ready/flush/close-after-close are recorded, not judged (the property speaks of writes)',
+    'server: send-after-ready, no spin and flush-before-idle are proved on states/traces; acceptance of the server C14 monitor on every model trace is not proved (validated by correspondence)',
+]
 
 
 def run(tier, seed, replay):
